@@ -81,6 +81,17 @@ class Replayer:
                 if isinstance(b, tuple) and b[0] == "packed" and b[1] == fmt and len(b[2]) == 1:
                     return ("same", b[2][0], "float" if fmt.lstrip("!<>=@") in ("d", "f") else "int")
                 raise Mismatch(f"{op!r}: reader unpacks {fmt!r} from {b!r}")
+            if k == "call" and v[1] == "complex" and len(v[2]) == 2 and all(isinstance(x, tuple) and x[0] == "index" for x in v[2]):
+                u0, u1 = v[2][0][1], v[2][1][1]
+                if u0 == u1 and u0[0] == "unpack" and v[2][0][2] == ("const", 0) and v[2][1][2] == ("const", 1):
+                    b = val(u0[2])
+                    fmt = u0[1][1]
+                    if isinstance(b, tuple) and b[0] == "packed" and b[1] == fmt and len(b[2]) == 2:
+                        re_, im = b[2]
+                        if re_.endswith(".real") and im.endswith(".imag") and re_[:-5] == im[:-5]:
+                            return ("same", re_[:-5], "complex")
+                        raise Mismatch(f"{op!r}: complex rebuilt from ({re_}, {im})")
+                raise Mismatch(f"{op!r}: complex built from {v[2]!r}")
             if k == "call" and v[1] == "complex":
                 a = v[2][0]
                 if a[0] == "star" and a[1][0] == "unpack":
